@@ -19,29 +19,37 @@ PROPS["C11"] = dict(
         "conformality / equal area (Richardson differencing of the implementation, h = 0.02°)": "1e-7 relative (a-priori error of the differencing), |lat| ≤ 85°",
         "prescribed scale (standard parallels, SetScale latitude), central scale": "1e-12 relative + 4·10 nm / apex distance",
         "constructor / SetScale / mirror / parallel-order equivalence": "2 × the position tolerance",
+        "kernel models vs implementation (Init members, Forward, Reverse, SetScale, txif, tphif, DDatanhee, atanhxm1)": "32 ulp + 8 × the largest deviation of five runs of the "
+                                   "model with hypot and log jiggled in the last bit by a hash (last-bit conditioning probe; nothing fitted); _drhomax on the implementation's own members; "
+                                   "Reverse k additionally |ψ| ulp (k is an exponential of the isometric latitude); lat/lon 64 ulp of 90°/180°",
         "model vs implementation": "polar stereographic 64 ulp of ρ (+ the model's own sensitivity to 8 ulp of hypot in Reverse), taupf 32/(1−es²) ulp, tauf 64 ulp + sensitivity, divided "
                                    "differences 32 ulp, hemisphere wrapper and constructor domains exact",
     },
-    level_text=("Theorems over ℝ about the definitions the driver executes (Model/Conic.lean): polar stereographic Reverse∘Forward = id for every ellipsoid, scale, hemisphere, latitude and "
-                "longitude and every inversion tauf of taupf (ps_inverse, from the key identity (1/t − t)/2 = τ′, ps_key_identity), the pole case (ps_pole), the scale is ρ/(a m(φ)) "
-                "(ps_scale_formula), the scale after SetScale is the requested one (ps_setscale), an exact solution is a fixed point of the Newton loop of tauf (tauf_loop_fixed); every "
-                "divided-difference helper of both conic headers is the divided difference (g x − g y)/(x − y) of its function for x ≠ y: Dhyp, Dsn, Dlog1p, Dexp, Dsinh, Dasinh, Deatanhe "
-                "(oblate and prolate forms), with the diagonal values of Dhyp and Dasinh; for every cone kernel the hemisphere bookkeeping of LambertConformalConic / AlbersEqualArea satisfies "
-                "the mirror law Forward(−cone)(−φ) = mirror(Forward(cone)(φ)) (conic_sign_once, conic_reverse_mirror), Reverse∘Forward = id whenever the northern kernels are mutually "
-                "inverse (conic_reverse_forward), the twice-applied sign of the old Albers code is the mirror-latitude map (conic_sign_twice_is_mirror_latitude), Init sees the same canonical "
-                "parallels for a cone and its mirror image (cone_canon_mirror); the three constructor forms of each class accept the same parameter sets (ctor_domain_two_vs_sincos, "
-                "ctor_domain_one_vs_two). Correspondence (binary64 execution of the same definitions against the implementation): taupf, tauf, PolarStereographic Forward/Reverse/SetScale, all "
-                "nine helpers (called through the private static members), the hemisphere wrapper predicted exactly from the implementation's own answer on the northern problem, accept/reject "
-                "of the three constructors. Partial — not theorems, covered by oracles on the implementation only: LambertConformalConic::Init / Forward / Reverse and AlbersEqualArea::Init / "
-                "txif / tphif / Forward / Reverse kernels (Snyder closed forms in binary128 incl. Mercator, polar, cylindrical and azimuthal limits and prolate ellipsoids; closures; conformality "
-                "and equal area by differencing; prescribed scales; constructor, SetScale, parallel-order and mirror equivalences; longitude wrap; NaN propagation); convergence of the "
-                "Newton iterations; DDatanhee and atanhxm1; floating-point error bounds."),
+    level_text=("Theorems over ℝ about the definitions the driver executes (Model/Conic.lean, Model/ConicKernels.lean). Polar stereographic: Reverse∘Forward = id for every "
+                "ellipsoid, scale, hemisphere, latitude and longitude and every inversion tauf of taupf (ps_inverse, ps_key_identity), pole case, k = ρ/(a m(φ)), SetScale, Newton "
+                "fixed point. Divided differences: Dhyp, Dsn, Dlog1p, Dexp, Dsinh, Dasinh, Deatanhe (oblate, prolate), Datanhee (oblate) are (g x − g y)/(x − y). Hemisphere "
+                "bookkeeping for every cone kernel: mirror law, Reverse∘Forward = id of the wrapper, canonical parallels; the three constructor forms accept the same sets. "
+                "Cone kernels as coded: LCC — the coded x, y are ρ sin θ, ρ0 − ρ cos θ (cone_xy_closed); Forward's drho (both branches) is (scale/n)(e^{−nψ} − e^{−nψ0}) = ρ − ρ0 for "
+                "ρ = a F tⁿ (lcc_drho_closed); k = k0 (scβ e^{−nψ})/(scβ0 e^{−nψ0}) (lcc_k_closed); with Init's _k0 the scale on the first standard parallel is k1 "
+                "(lcc_scale_on_parallel1); the divided-difference cone constant num/den of the two-parallel Init is Snyder's (ln m1 − ln m2)/(ln t1 − ln t2) (lcc_n_snyder, oblate); "
+                "Reverse recovers drho (cone_reverse_drho), dpsi (lcc_reverse_dpsi) and tan χ in both branches 2n ≤ 1 / 2n > 1 (lcc_reverse_tchiA/B); Reverse∘Forward = id on the kernel "
+                "level given tauf∘taupf = id (lcc_reverse_forward_kernel: drho, dpsi, tan χ, tan φ; ψ ≠ ψ0, below the _drhomax clamp). Albers — txif is the authalic tangent "
+                "Q/√(QZ² − Q²) (txif_closed, oblate); dq = qZ(sin ξ − sin ξ0) (alb_dq); n0·drho = a(√(m0² − n0 dq) − √m0²), i.e. drho = ρ − ρ0 for ρ = a√(C − n q)/n (alb_drho_closed); "
+                "Reverse recovers drho, scxi0(sin ξ − sin ξ0) and tan ξ (alb_reverse_drho, alb_reverse_dsxia, alb_reverse_txi); Reverse∘Forward = id on the kernel level given "
+                "tphif∘txif = id (alb_reverse_forward_kernel); SetScale keeps _k2 = _k0² and the k·(1/k) area bookkeeping (alb_setscale_k2, alb_area_factor, alb_setscale_scale). "
+                "Correspondence (binary64 execution of the same definitions against the implementation, private members through the harness): everything of the first round plus "
+                "LambertConformalConic::Init (all 13 members, every branch incl. the careful 1 − n evaluation), Forward, Reverse, SetScale; AlbersEqualArea::Init (10 members, the Newton "
+                "loop), Forward, Reverse, SetScale, txif, tphif, DDatanhee (all three evaluation paths), atanhxm1. Partial — not theorems: the careful evaluation of 1 − n for n ≥ 1/4 "
+                "(lccNcCareful) and Albers Init's s, 1 − s, C and Newton iteration are modelled and executed but not proved equal to their closed forms; the longitude recovery through "
+                "atan2 in the kernel Reverse∘Forward theorems; prolate / spherical cases of lcc_n_snyder, txif_closed, Datanhee; convergence of the Newton iterations (tauf, tphif, "
+                "Init); the series DDatanhee1/2 and atanhxm1 equal to their limits; floating-point error bounds. These stay covered by the binary128 closed-form oracle and the "
+                "other oracles on the implementation."),
     level_note=("hand-written polymorphic model (RealLike) of PolarStereographic.cpp, Math::taupf/tauf/eatanhe, the divided-difference helpers of LambertConformalConic.hpp / AlbersEqualArea.hpp, the "
                 "_sign bookkeeping and the constructor checks; LatFix, tand, sincosd, atand, atan2d, AngNormalize are kernels (C16); nothing is regenerated from the source (no tables): the tie to "
                 "the code is the execution of the model against the working tree on every run; the oracle is independent code in IEEE binary128 (libquadmath) using Snyder (1987) eqs 3-12, 14-1…14-18, "
                 "15-1…15-11, 21-32…21-40 with analytic continuation e → i ε for prolate ellipsoids"),
     technique="Lean 4 proofs over ℝ of the closed-form models and of the hemisphere/constructor bookkeeping for every kernel + binary64 execution of the same definitions against the implementation + binary128 closed-form oracle",
-    assumptions=["the cone kernels of LCC/Albers are not modelled: their agreement with the textbook definitions is established by the binary128 oracle on sampled inputs only",
+    assumptions=["the kernel models are hand transcriptions of LambertConformalConic.cpp / AlbersEqualArea.cpp; the tie to the code is their execution against the working tree on every run",
                  "Math::atand is odd and sincosd returns a valid sine/cosine pair with non-negative cosine on [-90, 90] (C16)",
                  "libm kernels (sinh, asinh, atanh, atan, exp, log, hypot) agree between Lean's Float and C++ to a few ulp",
                  "Snyder's formulas are the definitions of the projections; the origin of a two-parallel cone is the latitude of minimum (azimuthal) scale, as the headers state"],
